@@ -367,6 +367,14 @@ fn jstr(s: &str) -> String {
 }
 
 fn main() {
+    // everything runs on a thread with the stack a spawned Rust thread (and a `cargo test` test) gets by default, 2 MiB,
+    // not on the 8 MiB main thread: recursion depth that only the main thread forgives is a defect for most callers
+    let kb: usize = std::env::var("PP_STACK_KB").ok().and_then(|s| s.parse().ok()).unwrap_or(2048);
+    let h = std::thread::Builder::new().stack_size(kb * 1024).spawn(real_main).expect("spawn");
+    let _ = h.join();
+}
+
+fn real_main() {
     std::panic::set_hook(Box::new(|_| {}));
     let args: Vec<String> = std::env::args().collect();
     let mut opt: BTreeMap<String, String> = BTreeMap::new();
@@ -457,6 +465,7 @@ fn main() {
 
     // wall-clock budget for the generated part of the campaign (0 = none): the quick tier must stay quick even when every
     // case is slow (long inputs, shrinking); the report says how many cases actually ran
+    let last_path: Option<String> = opt.get("out").map(|o| format!("{o}.last"));
     let max_secs: u64 = opt.get("max-secs").map(|s| s.parse().unwrap()).unwrap_or(0);
     let t_start = std::time::Instant::now();
     let mut idx = 0u64;
@@ -474,6 +483,11 @@ fn main() {
             break;
         };
         cases_run += 1;
+        // the case about to run, for the orchestrator to pick up if the implementation takes the whole process down
+        // (stack overflow, abort): `catch_unwind` cannot catch those
+        if let Some(lp) = &last_path {
+            let _ = std::fs::write(lp, case.request_prefix());
+        }
         let req = full_request(&case);
         if req.contains("impl=PANIC") {
             impl_panics += 1;
